@@ -79,6 +79,16 @@ def wfChunk : Chunk → Bool
 
 def wfPacket (p : Packet) : Bool := p.chunks.all wfChunk
 
+/-- `false` exactly for the two decoded shapes that are known not to survive re-encoding
+(known_findings.txt F-codec-1, F-codec-2): a HEARTBEAT-ACK without parameter (the encoder refuses
+it), and an INIT / INIT-ACK whose last recognised parameter encodes to 4 bytes (the decoder's
+parameter loop would not read it back). -/
+def reencodable : Chunk → Bool
+  | .heartbeatAck _ [] => false
+  | .init _ c => (match c.params.getLast? with | none => true | some p => paramLen p > 4)
+  | .initAck _ c => (match c.params.getLast? with | none => true | some p => paramLen p > 4)
+  | _ => true
+
 /-! ### what `marshal` looks at -/
 
 def normChunk : Chunk → Chunk
